@@ -14,6 +14,7 @@ def dispatch (j : Json) : Except String Json := do
   | "ops" => cmdOps j
   | "adder" => cmdAdder j
   | "conv" => cmdConv j
+  | "muxes" => cmdMuxes j
   | "sanity" => cmdSanity j
   | "topo" => cmdTopo j
   | _ => throw s!"unknown cmd {cmd}"
